@@ -600,3 +600,67 @@ def _uninterp(e, st, args, kw, n):
 @builtin('numba.typed.Dict.empty')
 def _typed_dict_empty(e, st, args, kw, n):
     return {}
+
+
+# ---------------------------------------------------------------- bytes / memoryview / struct glue (object code of the ASDF codec)
+@builtin('memoryview')
+def _memoryview(e, st, args, kw, n):
+    if not isinstance(args[0], Arr) or args[0].ndim != 1:
+        raise Unsupported('memoryview of a non-buffer')
+    return args[0]
+
+
+@method('cast')
+def _mv_cast(e, st, obj, args, kw, n):
+    if args != ['c'] and args != ['B']:
+        raise Unsupported('memoryview.cast to a non-byte format')
+    return obj
+
+
+@method('toreadonly')
+def _mv_readonly(e, st, obj, args, kw, n):
+    return obj
+
+
+@method('tobytes')
+def _tobytes(e, st, obj, args, kw, n):
+    if not isinstance(obj, Arr) or obj.ndim != 1 or (obj.dt is not None and obj.dt.itemsize != 1):
+        raise Unsupported('tobytes of a non-byte buffer')
+    from .engine import BYTES_DT
+    empty = e.new_array(st, 'bytes', [z3.IntVal(0)], 'int', BYTES_DT, readonly=True)
+    return e.concat_bytes(st, empty, obj)
+
+
+@builtin('numpy.frombuffer')
+def _frombuffer(e, st, args, kw, n):
+    a = args[0]
+    dt = _dtype_arg(e, kw, args, 1)
+    if not isinstance(a, Arr) or a.ndim != 1 or dt.itemsize != 1:
+        raise Unsupported('frombuffer other than a byte view of a 1-D buffer')
+    e.note_assumed('numpy.frombuffer(buf, dtype=<1-byte type>): a view of the same bytes (elements are modelled as raw byte values, '
+                   'so signed / unsigned reinterpretation is the identity)')
+    return Arr(a.base, list(a.axes), a.ety, a.dt, a.readonly)
+
+
+@builtin('struct.unpack')
+def _struct_unpack(e, st, args, kw, n):
+    fmt, buf = args
+    if fmt != '!I' or not isinstance(buf, Arr) or buf.ndim != 1:
+        raise Unsupported('struct.unpack other than big-endian uint32 of a byte buffer')
+    e.oblige(st, 'struct_len', buf.shape[0] == 4, n, label='struct.unpack("!I", x) needs exactly 4 bytes')
+    b = [e.sel(st, buf, [z3.IntVal(k)]) for k in range(4)]
+    return (SV(b[0] * 16777216 + b[1] * 65536 + b[2] * 256 + b[3], 'int'),)
+
+
+@builtin('time.perf_counter')
+def _perf_counter(e, st, args, kw, n):
+    from .engine import fresh
+    return SV(fresh('clock', z3.RealSort()), 'real')
+
+
+@builtin('voff')
+def _voff(e, st, args, kw, n):
+    a = args[0]
+    if not isinstance(a, Arr) or a.ndim != 1:
+        raise Unsupported('voff of a non-1-D view')
+    return SV(a.axes[-1][1], 'int')
